@@ -50,44 +50,45 @@ func (s *State) clone() *State {
 }
 
 type FuncVC struct {
-	eng          *Engine
-	fn           *ssa.Function
-	key          string
-	spec         *FuncSpec
-	script       *Script
-	obls         []*Obligation
-	universe     map[string]bool
-	loopMods     map[string]map[string]bool // from previous pass
-	loopModsNext map[string]map[string]bool
-	nfresh       int
-	usedSpec     map[string]bool
-	usedLemmas   map[string]bool
-	unsupported  map[string]bool
-	unknownCalls map[string]bool
-	unclaimed    map[string]bool // obligations of a partially specified function that are generated but not claimed
-	assumed      map[string]bool
-	inlined      map[string]bool
-	safe         bool
-	nowrap       bool
-	sweep        bool
-	loopCut      bool
-	oblNames     map[string]int
-	ssaInstrs    int
-	errs         []string
-	topFrame     *Frame
-	forceWrap    bool
-	sweepRecv    bool
-	usesLocks    bool
-	lockOnly     bool
-	guardVals    map[ssa.Value]guardInfo
-	ifaceRecv    types.Type
-	ifaceImpl    types.Type
-	lemmaReveal  []string
-	lemmaEnv     *TEnv
-	outDir       string
-	specInfo     map[string]*specFnInfo
-	specOrder    []string
-	axioms       []string
+	eng            *Engine
+	fn             *ssa.Function
+	key            string
+	spec           *FuncSpec
+	script         *Script
+	obls           []*Obligation
+	universe       map[string]bool
+	loopMods       map[string]map[string]bool // from previous pass
+	loopModsNext   map[string]map[string]bool
+	nfresh         int
+	usedSpec       map[string]bool
+	usedLemmas     map[string]bool
+	unsupported    map[string]bool
+	unknownCalls   map[string]bool
+	matchedAsserts map[*CallAssert]bool // call-site assertions that found their call in this pass
+	unclaimed      map[string]bool      // obligations of a partially specified function that are generated but not claimed
+	assumed        map[string]bool
+	inlined        map[string]bool
+	safe           bool
+	nowrap         bool
+	sweep          bool
+	loopCut        bool
+	oblNames       map[string]int
+	ssaInstrs      int
+	errs           []string
+	topFrame       *Frame
+	forceWrap      bool
+	sweepRecv      bool
+	usesLocks      bool
+	lockOnly       bool
+	guardVals      map[ssa.Value]guardInfo
+	ifaceRecv      types.Type
+	ifaceImpl      types.Type
+	lemmaReveal    []string
+	lemmaEnv       *TEnv
+	outDir         string
+	specInfo       map[string]*specFnInfo
+	specOrder      []string
+	axioms         []string
 }
 
 type LVal struct {
@@ -194,6 +195,7 @@ func (vc *FuncVC) reset() {
 	vc.usedLemmas = map[string]bool{}
 	vc.unsupported = map[string]bool{}
 	vc.unknownCalls = map[string]bool{}
+	vc.matchedAsserts = map[*CallAssert]bool{}
 	vc.unclaimed = map[string]bool{}
 	vc.assumed = map[string]bool{}
 	vc.inlined = map[string]bool{}
@@ -591,6 +593,13 @@ func (f *Frame) oblige(kind, name, cond, text string, pos token.Pos) {
 			// (the callers of oblige still assume the condition)
 			vc.unclaimed[name] = true
 			return
+		}
+	}
+	if vc.spec != nil {
+		for cn, ps := range vc.spec.ClauseProps {
+			if strings.HasSuffix(name, ":"+cn) || strings.Contains(name, ":"+cn+"/") {
+				props = ps
+			}
 		}
 	}
 	goal := Imp(f.curReach, cond)
